@@ -189,6 +189,32 @@ async fn handle_raw_message(args: ListenArgs, buf: &[u8]) -> Option<Message> {
     }
 }
 
+/// Serialise a response.  A response which cannot be put on the wire at all (a
+/// section with more than 65535 records, or RDATA longer than 65535 octets)
+/// must not leave the client without a reply: fall back to SERVFAIL with empty
+/// sections.
+fn serialise_response(peer: SocketAddr, message: Message) -> Option<(Message, BytesMut)> {
+    match message.to_octets() {
+        Ok(serialised) => Some((message, serialised)),
+        Err(error) => {
+            tracing::warn!(?peer, ?message, ?error, "could not serialise message");
+            let mut fallback = message;
+            fallback.answers.clear();
+            fallback.authority.clear();
+            fallback.additional.clear();
+            fallback.header.rcode = Rcode::ServerFailure;
+            fallback.header.is_authoritative = false;
+            match fallback.to_octets() {
+                Ok(serialised) => Some((fallback, serialised)),
+                Err(error) => {
+                    tracing::warn!(?peer, ?error, "could not serialise fallback message");
+                    None
+                }
+            }
+        }
+    }
+}
+
 async fn listen_tcp_task(args: ListenArgs, socket: TcpListener) {
     loop {
         match socket.accept().await {
@@ -211,34 +237,22 @@ async fn listen_tcp_task(args: ListenArgs, socket: TcpListener) {
                             id.map(Message::make_format_error_response)
                         }
                     };
-                    if let Some(message) = response {
-                        match message.to_octets() {
-                            Ok(mut serialised) => {
-                                DNS_RESPONSES_TOTAL
-                                    .with_label_values(&[
-                                        message.header.is_authoritative.to_string(),
-                                        "false".to_string(),
-                                        message.header.recursion_desired.to_string(),
-                                        message.header.recursion_available.to_string(),
-                                        message.header.rcode.to_string(),
-                                    ])
-                                    .inc();
+                    if let Some((message, mut serialised)) =
+                        response.and_then(|message| serialise_response(peer, message))
+                    {
+                        DNS_RESPONSES_TOTAL
+                            .with_label_values(&[
+                                message.header.is_authoritative.to_string(),
+                                "false".to_string(),
+                                message.header.recursion_desired.to_string(),
+                                message.header.recursion_available.to_string(),
+                                message.header.rcode.to_string(),
+                            ])
+                            .inc();
 
-                                if let Err(error) =
-                                    send_tcp_bytes(&mut stream, &mut serialised).await
-                                {
-                                    tracing::debug!(?peer, ?error, "TCP send error");
-                                }
-                            }
-                            Err(error) => {
-                                tracing::warn!(
-                                    ?peer,
-                                    ?message,
-                                    ?error,
-                                    "could not serialise message"
-                                );
-                            }
-                        };
+                        if let Err(error) = send_tcp_bytes(&mut stream, &mut serialised).await {
+                            tracing::debug!(?peer, ?error, "TCP send error");
+                        }
                     };
                     response_timer.observe_duration();
                 });
@@ -274,27 +288,17 @@ async fn listen_udp_task(args: ListenArgs, socket: UdpSocket) {
             }
 
             Some((message, peer, response_timer)) = rx.recv() => {
-                match message.to_octets() {
-                    Ok(mut serialised) => {
-                        DNS_RESPONSES_TOTAL.with_label_values(&[
-                            &message.header.is_authoritative.to_string(),
-                            &(serialised.len() > 512).to_string(),
-                            &message.header.recursion_desired.to_string(),
-                            &message.header.recursion_available.to_string(),
-                            &message.header.rcode.to_string(),
-                        ]).inc();
-                        if let Err(error) = send_udp_bytes_to(&socket, peer, &mut serialised).await
-                        {
-                            tracing::debug!(?peer, ?error, "UDP send error");
-                        }
-                    }
-                    Err(error) => {
-                        tracing::warn!(
-                            ?peer,
-                            ?message,
-                            ?error,
-                            "could not serialise message"
-                        );
+                if let Some((message, mut serialised)) = serialise_response(peer, message) {
+                    DNS_RESPONSES_TOTAL.with_label_values(&[
+                        &message.header.is_authoritative.to_string(),
+                        &(serialised.len() > 512).to_string(),
+                        &message.header.recursion_desired.to_string(),
+                        &message.header.recursion_available.to_string(),
+                        &message.header.rcode.to_string(),
+                    ]).inc();
+                    if let Err(error) = send_udp_bytes_to(&socket, peer, &mut serialised).await
+                    {
+                        tracing::debug!(?peer, ?error, "UDP send error");
                     }
                 };
                 response_timer.observe_duration();
